@@ -967,6 +967,25 @@ func runC01(c *engine.Ctx) {
 		}
 		c.Probe("tampered_jobs_rejected")
 	}
+	// ---- two signers of one (non-comparable) Go type are two keys
+	if c.Sched.Draw(12, "signer:two-of-a-type?") == 11 {
+		a := sliceSigner{priv: ring.byKind["ES256"][0].signer.priv, tags: []string{"a"}}
+		b := sliceSigner{priv: ring.byKind["ES256"][1].signer.priv, tags: []string{"b"}}
+		step := &signature.CommandStepWithInvariants{CommandStep: pipeline.CommandStep{Command: "echo two signers"}, RepositoryURL: repoURL}
+		var sig *pipeline.Signature
+		var serr, va, vb error
+		c.Guard("C01.panic", "Sign/Verify with two signers of one type", func() {
+			sig, serr = signature.Sign(context.Background(), a, step)
+			if serr == nil {
+				va = signature.Verify(context.Background(), sig, a, step)
+				vb = signature.Verify(context.Background(), sig, b, step)
+			}
+		})
+		if serr == nil && (va != nil || vb == nil) {
+			c.Fail("C01.accepted-tampered", "wrong-key.another-signer-of-the-same-go-type", "signed with crypto.Signer A: Verify under A err=%v (want nil), under signer B of the same Go type (another key) err=%v (want an error)", va, vb)
+		}
+		c.Probe("two_signers_of_one_type")
+	}
 	// ---- in-memory presentation: the verifier holds the uploader's own step objects (no wire in between)
 	// and one field is changed in place (then restored)
 	walkCommandSteps(pl.Steps, func(cs *pipeline.CommandStep, depth int) {
